@@ -466,7 +466,7 @@ def main(argv):
                     undecided.append("%s: contract of %s is used but its body is verified in no unit" % (rec["unit"], suffix))
                 assumptions.add("%s: trusted (body not verified) %s" % (rec["unit"], it["id"]))
                 continue
-            rel = pid in it["props"] or pid == "C04"
+            rel = pid in it["props"] or (pid == "C04" and it.get("kind") != "lemma")
             if not rel:
                 continue
             n_items += 1
@@ -591,7 +591,8 @@ def main(argv):
     json.dump(ev, open(os.path.join(VERIF, "evidence", pid + ".json"), "w"), indent=1)
 
     for f in knownhits:
-        print("KNOWN-FINDING: property=%s %s (%s)" % (pid, f["obligation"], f["message"]))
+        kf = [k for k in known if k["obligation"] == f["obligation"]]
+        print("KNOWN-FINDING: property=%s %s: %s" % (pid, f["obligation"], (kf[0].get("what") if kf else f["message"])))
     for f in real_violations:
         tail = "" if f.get("witness") else " no-failing-input-found"
         print("failed obligation %s [%s] %s :: %s" % (f["obligation"], f["kind"], f["src"], f["clause"][:200]))
@@ -602,7 +603,8 @@ def main(argv):
         for u in undecided:
             print("UNDECIDED: " + u)
         return 2
-    print("%s: %d obligations over %d functions in %d units discharged by verus/z3 in %.1fs" % (pid, n_obl, n_items, len(recs), wall))
+    print("%s: %d of %d obligations over %d functions in %d units discharged by verus/z3 in %.1fs%s" % (
+        pid, discharged, n_obl, n_items, len(recs), wall, (" (%d failed: known finding)" % len(knownhits)) if knownhits else ""))
     return 0
 
 
